@@ -60,6 +60,14 @@ def run(cs, counters, script=None):
     model = h.sess.model.clone()
     model.reopened()
     h.sess.close()
+    files = sorted(p for p, n in model.ns['iso'].items() if n.kind == 'file' and n.cid is not None and n.cid != 'catalog' and not model.boot_refs(n.cid))
+    dirs = sorted(p for p, n in model.ns['iso'].items() if n.kind == 'dir')
+    if cs % 7 == 3 and files:
+        # the image in a real file opened read-only: every modification must be refused, and a refused
+        # one must leave neither the file nor what the object reads and masters changed
+        vio_ro = readonly_case(data0, model, files, rng, counters)
+        if vio_ro:
+            return c01.dedup(vio_ro), []
     backing = io.BytesIO(data0)
     if cs % 3 != 0:
         # the image is modified later than it was mastered
@@ -71,8 +79,6 @@ def run(cs, counters, script=None):
     except Exception as e:
         return [{'key': 'setup-open-raises:%s' % type(e).__name__, 'detail': str(e)}], []
     done = []
-    files = sorted(p for p, n in model.ns['iso'].items() if n.kind == 'file' and n.cid is not None and n.cid != 'catalog' and not model.boot_refs(n.cid))
-    dirs = sorted(p for p, n in model.ns['iso'].items() if n.kind == 'dir')
     steps = script if script is not None else None
     nsteps = len(script) if script is not None else rng.choice([1, 2, 4, 6])
     for k in range(nsteps):
@@ -230,6 +236,52 @@ def run(cs, counters, script=None):
     except Exception:
         pass
     return c01.dedup(vio), done
+
+
+def readonly_case(data0, model, files, rng, counters):
+    import os
+    import tempfile
+    import pycdlib
+    vio = []
+    base = '/dev/shm' if os.path.isdir('/dev/shm') and os.access('/dev/shm', os.W_OK) else None
+    fd, path = tempfile.mkstemp(prefix='verif-c17-', suffix='.iso', dir=base)
+    try:
+        with os.fdopen(fd, 'wb') as f:
+            f.write(data0)
+        iso = pycdlib.PyCdlib()
+        iso.open(path)            # default mode 'rb'
+        try:
+            for _k in range(rng.choice([1, 2, 3])):
+                target = rng.choice(files)
+                oldlen = model.contents[model.ns['iso'][target].cid].length
+                newlen = rng.choice([oldlen, max(0, oldlen - 1), ((oldlen + 2047) // 2048) * 2048 or 1, oldlen + 1])
+                try:
+                    iso.modify_file_in_place(io.BytesIO(b'\xa5' * newlen), newlen, target)
+                    vio.append({'key': 'readonly:accepted', 'detail': 'modify_file_in_place(%s, %d) on an image opened read-only was accepted' % (target[:50], newlen)})
+                    break
+                except Exception as e:
+                    counters['readonly_refusals'] = counters.get('readonly_refusals', 0) + 1
+                    if type(e).__name__ != 'PyCdlibInvalidInput':
+                        vio.append({'key': 'readonly:wrong-exception:%s' % type(e).__name__, 'detail': str(e)})
+                buf = io.BytesIO()
+                iso.get_file_from_iso_fp(buf, iso_path=target)
+                if buf.getvalue() != model.contents[model.ns['iso'][target].cid].bytes():
+                    vio.append({'key': 'readonly:refusal-changed-content', 'detail': 'after the refused modify_file_in_place %s reads %d bytes that are not its content' % (target[:50], len(buf.getvalue()))})
+                    break
+            with open(path, 'rb') as f:
+                if f.read() != data0:
+                    vio.append({'key': 'readonly:file-changed', 'detail': 'the read-only image file changed'})
+            if not vio:
+                for kk, d in common.compare_views(model, iso):
+                    vio.append({'key': 'readonly:view:%s' % kk.split(':', 1)[1], 'detail': d})
+        finally:
+            iso.close()
+    finally:
+        try:
+            os.unlink(path)
+        except OSError:
+            pass
+    return vio
 
 
 def join_(a, b):
